@@ -443,9 +443,9 @@ class Serializer:
             "doublevarlenH": VarLen(">H"),
             "payload": NestedPayload(self),
             "payload-list": ListOf(NestedPayload(self)),
-            "arrayH-?": DefaultArray("?", "H"),
-            "arrayH-q": DefaultArray("q", "H"),
-            "arrayH-d": DefaultArray("d", "H"),
+            "arrayH-?": DefaultArray("?", ">H"),
+            "arrayH-q": DefaultArray("q", ">H"),
+            "arrayH-d": DefaultArray("d", ">H"),
         }
 
     def get_available_formats(self) -> list[str]:
